@@ -4,6 +4,7 @@ import (
 	"crypto/sha256"
 	"encoding/hex"
 	"fmt"
+	"os"
 	"runtime"
 	"runtime/debug"
 	"sort"
@@ -108,6 +109,8 @@ type Sim struct {
 
 var active atomic.Pointer[Sim]
 
+var debugAdopt = os.Getenv("VERIF_DEBUG_ADOPT") != ""
+
 var (
 	gmu  sync.Mutex
 	gmap = map[uint64]*Task{}
@@ -176,6 +179,9 @@ func Cur() *Task {
 	t.started = true
 	s.Stats["adopted"]++
 	s.mu.Unlock()
+	if debugAdopt {
+		fmt.Fprintf(os.Stderr, "ADOPT seed=%d %s\n%s\n", s.Tape.Seed, t.Label, debug.Stack())
+	}
 	t.goid = id
 	gmu.Lock()
 	gmap[id] = t
